@@ -76,6 +76,14 @@ fn all_rounds(count: u8, h: u8, seed: u64, w: u8) -> Option<Vec<Option<(u8, u8)>
         (0..=255u8).map(|round| v.get_matrix_coordinates(round)).collect()
     })
 }
+/// the answer for a round does not depend on which rounds were asked before, how often, or in which order
+fn rounds_in_order(count: u8, h: u8, seed: u64, w: u8, order: &[u8]) -> Option<Vec<(u8, Option<(u8, u8)>)>> {
+    let order = order.to_vec();
+    catch(move || {
+        let mut v = MatrixCardVerifier::new(count, h, seed, w, &[0u8; 40]);
+        order.iter().map(|round| (*round, v.get_matrix_coordinates(*round))).collect()
+    })
+}
 fn emit_rounds(ctx: &mut Ctx, label: &str, w: u8, h: u8, count: u8, seed: u64) {
     let s = seed.to_le_bytes();
     let ins: [&[u8]; 4] = [&[w], &[h], &[count], &s];
@@ -246,6 +254,22 @@ fn oracle_card(ctx: &mut Ctx, rng: &mut Rng, k: usize, d: u8, h: u8, w: u8, max_
             match all_rounds(*count, h, seed, w) {
                 None => ctx.fail("panic", format!("{{\"call\":\"MatrixCardVerifier::new/get_matrix_coordinates\",\"width\":{},\"height\":{},\"challenge_count\":{},\"seed\":\"{}\"}}", w, h, count, seed)),
                 Some(rs) => {
+                    // order independence: descending, a random permutation with repeats, and "last round first"
+                    let upto = (*count as usize + 2).min(256);
+                    let mut orders: Vec<Vec<u8>> = vec![(0..upto).rev().map(|r| r as u8).collect()];
+                    let mut perm: Vec<u8> = (0..upto).map(|r| r as u8).collect();
+                    for i in (1..perm.len()).rev() { let j = rng.below(i as u64 + 1) as usize; perm.swap(i, j); }
+                    let mut with_repeats = perm.clone(); with_repeats.extend(perm.iter().take(3)); orders.push(with_repeats);
+                    if *count > 0 { orders.push(vec![*count - 1, 0, *count - 1]); }
+                    for ord in orders {
+                        ctx.oracle_runs += 1;
+                        match rounds_in_order(*count, h, seed, w, &ord) {
+                            None => ctx.fail("panic", format!("{{\"call\":\"get_matrix_coordinates out of order\",\"width\":{},\"height\":{},\"challenge_count\":{},\"seed\":\"{}\",\"order\":{:?}}}", w, h, count, seed, ord)),
+                            Some(got) => if let Some((round, r)) = got.iter().find(|(round, r)| rs[*round as usize] != *r) {
+                                ctx.fail("round_order", format!("{{\"what\":\"the coordinates of a round depend on the order in which rounds are asked\",\"width\":{},\"height\":{},\"challenge_count\":{},\"seed\":\"{}\",\"order\":{:?},\"round\":{},\"returned\":\"{:?}\",\"asked_in_ascending_order\":\"{:?}\"}}", w, h, count, seed, ord, round, r, rs[*round as usize]));
+                            },
+                        }
+                    }
                     let mut seen = vec![false; cells];
                     for (round, r) in rs.iter().enumerate() {
                         let inside = round < *count as usize;
